@@ -14,10 +14,34 @@ import (
 type MapLogStore struct {
 	mu        sync.Mutex
 	m         map[uint64]*raft.Log
-	fails     []bool // consumed by StoreLogs / DeleteRange
+	orc       *oracle // one failure bit per StoreLogs / DeleteRange
 	monotonic bool
 	ops       []storeOp // op log (mutating calls only)
 	onOp      func(op storeOp)
+	// commit tracking (CommitTrackingLogStore contract): staged value becomes durable with the
+	// next successful StoreLogs
+	staged, pcommit uint64
+	onStage         func(c uint64)
+}
+
+// oracle: the failure bits of a case, shared by all stores of a node and consumed in call order
+type oracle struct {
+	mu   sync.Mutex
+	bits []bool
+}
+
+func (o *oracle) next() bool {
+	if o == nil {
+		return false
+	}
+	o.mu.Lock()
+	defer o.mu.Unlock()
+	if len(o.bits) == 0 {
+		return false
+	}
+	f := o.bits[0]
+	o.bits = o.bits[1:]
+	return f
 }
 
 type storeOp struct {
@@ -30,17 +54,10 @@ type storeOp struct {
 var errInjected = errors.New("injected store failure")
 
 func NewMapLogStore(fails []bool) *MapLogStore {
-	return &MapLogStore{m: map[uint64]*raft.Log{}, fails: fails}
+	return &MapLogStore{m: map[uint64]*raft.Log{}, orc: &oracle{bits: fails}}
 }
 
-func (s *MapLogStore) nextFail() bool {
-	if len(s.fails) == 0 {
-		return false
-	}
-	f := s.fails[0]
-	s.fails = s.fails[1:]
-	return f
-}
+func (s *MapLogStore) nextFail() bool { return s.orc.next() }
 
 func (s *MapLogStore) FirstIndex() (uint64, error) {
 	s.mu.Lock()
@@ -81,7 +98,6 @@ func (s *MapLogStore) StoreLog(log *raft.Log) error { return s.StoreLogs([]*raft
 
 func (s *MapLogStore) StoreLogs(logs []*raft.Log) error {
 	s.mu.Lock()
-	defer s.mu.Unlock()
 	failed := s.nextFail()
 	cp := make([]*raft.Log, len(logs))
 	for i, l := range logs {
@@ -90,42 +106,61 @@ func (s *MapLogStore) StoreLogs(logs []*raft.Log) error {
 	}
 	op := storeOp{kind: "store", logs: cp, failed: failed}
 	s.ops = append(s.ops, op)
-	if failed {
-		if s.onOp != nil {
-			s.onOp(op)
+	if !failed {
+		for _, l := range cp {
+			s.m[l.Index] = l
 		}
-		return errInjected
+		s.pcommit = s.staged
 	}
-	for _, l := range cp {
-		s.m[l.Index] = l
-	}
+	s.mu.Unlock()
 	if s.onOp != nil {
 		s.onOp(op)
+	}
+	if failed {
+		return errInjected
 	}
 	return nil
 }
 
 func (s *MapLogStore) DeleteRange(min, max uint64) error {
 	s.mu.Lock()
-	defer s.mu.Unlock()
 	failed := s.nextFail()
 	op := storeOp{kind: "delete", lo: min, hi: max, failed: failed}
 	s.ops = append(s.ops, op)
-	if failed {
-		if s.onOp != nil {
-			s.onOp(op)
-		}
-		return errInjected
-	}
-	for k := range s.m {
-		if min <= k && k <= max {
-			delete(s.m, k)
+	if !failed {
+		for k := range s.m {
+			if min <= k && k <= max {
+				delete(s.m, k)
+			}
 		}
 	}
+	s.mu.Unlock()
 	if s.onOp != nil {
 		s.onOp(op)
 	}
+	if failed {
+		return errInjected
+	}
 	return nil
+}
+
+// TrackLogStore adds the CommitTrackingLogStore methods to a MapLogStore.
+type TrackLogStore struct{ *MapLogStore }
+
+func (t TrackLogStore) StageCommitIndex(idx uint64) error {
+	t.mu.Lock()
+	t.staged = idx
+	t.mu.Unlock()
+	if t.onStage != nil {
+		t.onStage(idx)
+	}
+	return nil
+}
+
+func (t TrackLogStore) GetCommitIndex() (uint64, error) {
+	t.mu.Lock()
+	defer t.mu.Unlock()
+	return t.pcommit, nil
 }
 
 func (s *MapLogStore) IsMonotonic() bool { return s.monotonic }
@@ -147,6 +182,8 @@ func (s *MapLogStore) Clone() *MapLogStore {
 	defer s.mu.Unlock()
 	n := NewMapLogStore(nil)
 	n.monotonic = s.monotonic
+	n.staged = s.pcommit // a staged-but-unpersisted value does not survive a crash
+	n.pcommit = s.pcommit
 	for k, v := range s.m {
 		c := *v
 		n.m[k] = &c
